@@ -13,7 +13,7 @@ import (
 
 func init() {
 	Register("C07", "Decides structural necessary conditions of allOf inheritance: (eq) equality methods of constraints read every field that carries meaning - violated by AdditionalProperties.IsEqual, known finding; (copy) inherited children are deep copies marked with the source type; (req) required keys of the source are propagated; (cycle) the compile recursion is guarded by test-insert-recurse-delete; (refuse) each documented refusal is raised on its guard; (det) no map-order dependence in the allOf compiler. Does NOT decide the merged key set for arbitrary inheritance DAGs nor OpenAPI listing equality.",
-		c07eq, c07copy, c07share, c07oalist, c07index, addChildOrderRule("C07.addorder"), unnamedOnlyRule("C07.unnamedonly"), inheritAllRule("C07.inheritall"), oncePanicRule("C07.oncepanic"), presizeRule("C07.presize"), walkKindsRule("C07.walkkinds"), c07req, c07cycle, c07refuse, c07walk, func(c *core.Ctx) {
+		noExitRule("C07.noexit"), oaEntryRule("C07.oaentry"), c07eq, c07copy, c07share, c07oalist, c07index, addChildOrderRule("C07.addorder"), unnamedOnlyRule("C07.unnamedonly"), inheritAllRule("C07.inheritall"), oncePanicRule("C07.oncepanic"), presizeRule("C07.presize"), walkKindsRule("C07.walkkinds"), c07req, c07cycle, c07refuse, c07walk, func(c *core.Ctx) {
 			runMapRange(c, "C07.det", []string{"notations/jschema/loader."}, 1)
 		})
 }
